@@ -315,8 +315,8 @@ type queryT struct {
 
 func run(c *vf.Ctx) {
 	g := gitx.New(c.Scratch)
-	nh := c.N(10, 120)
-	nq := c.N(220, 600)
+	nh := c.N(10, 60)
+	nq := c.N(220, 400)
 	var sampleMu sync.Mutex
 	samples := 0
 	var tmu, capMu sync.Mutex
@@ -598,13 +598,13 @@ func run(c *vf.Ctx) {
 		}
 	})
 	c.Extra("git_invocations", gitx.Calls.Load())
-	c.Floor("queries", c.Counter("queries"), c.N(2000, 60000))
-	c.Floor("git confirmations", c.Counter("git_confirmations"), c.N(50, 600))
-	c.Floor("queries with non-empty difference", c.Counter("queries_nonempty_difference"), c.N(1000, 30000))
-	c.Floor("queries with missing haves", c.Counter("queries_with_missing_haves"), c.N(200, 6000))
-	c.Floor("queries with tag/tree/blob wants", c.Counter("queries_with_noncommit_wants"), c.N(300, 9000))
-	c.Floor("queries over skewed/tied times", c.Counter("queries_skewed_or_tied_times"), c.N(800, 24000))
-	c.Floor("histories with gitlinks", c.Counter("histories_with_gitlinks"), c.N(3, 40))
+	c.Floor("queries", c.Counter("queries"), c.N(2000, 22000))
+	c.Floor("git confirmations", c.Counter("git_confirmations"), c.N(50, 200))
+	c.Floor("queries with non-empty difference", c.Counter("queries_nonempty_difference"), c.N(1000, 12000))
+	c.Floor("queries with missing haves", c.Counter("queries_with_missing_haves"), c.N(200, 2500))
+	c.Floor("queries with tag/tree/blob wants", c.Counter("queries_with_noncommit_wants"), c.N(300, 4000))
+	c.Floor("queries over skewed/tied times", c.Counter("queries_skewed_or_tied_times"), c.N(800, 9000))
+	c.Floor("histories with gitlinks", c.Counter("histories_with_gitlinks"), c.N(3, 20))
 	c.Floor("relations seen", c.SeenCount("relations"), 5)
 	c.Assume("non-shallow stores only (no .git/shallow); the property's second inclusion is stated for non-shallow stores")
 	c.Assume("supersets of reach(wants) minus reach(haves) are allowed by the statement: only the two inclusions are checked; duplicates in the result are not judged")
